@@ -1523,3 +1523,388 @@ Lemma direct_registration_inherits_refuted_neq :
   dispatch (fst (run [Global; Schema] [0; 1] hist_direct)) 1 (NGen KFlatmap THeaders) (Some op_post) = [] /\
   spec_dispatch (spec_run [0; 1] hist_direct) (ledger [Global; Schema] [0; 1] hist_direct) 1 (NGen KFlatmap THeaders) (Some op_post) <> [].
 Proof. destruct direct_registration_inherits_refuted as (_ & H1 & H2). split; [exact H1 | unfold hist_direct; rewrite H2; discriminate]. Qed.
+
+(* ====================================================================================== *)
+(* Part G: evaluation sequences over the operations of several schemas                    *)
+(* ====================================================================================== *)
+(* ---------- the code as it is never looks at the memory ---------- *)
+Lemma should_skip_plain st m f ctx : should_skip_m match_plain st m f ctx = (should_skip st f ctx, m).
+Proof.
+  unfold should_skip_m, should_skip, filter_of, match_plain.
+  destruct (lookup f (fattr st)) as [c|]; cbn [option_map]; [|reflexivity].
+  destruct ctx as [o|]; reflexivity.
+Qed.
+
+Lemma fired_plain st ctx fs : forall m, fired_m match_plain st m ctx fs = (fired st ctx fs, m).
+Proof.
+  induction fs as [|f fs IH]; intros m; cbn [fired_m]; [reflexivity|].
+  rewrite should_skip_plain, IH. unfold fired. cbn [filter].
+  destruct (should_skip st f ctx); cbn [negb]; reflexivity.
+Qed.
+
+Lemma container_plain st di t ctx ks : forall m,
+  container_m match_plain st m di t ctx ks
+  = (flat_map (fun k => map (fun f => (k, f)) (fired st ctx (all_by_name st di (NGen k t)))) ks, m).
+Proof.
+  induction ks as [|k ks IH]; intros m; cbn [container_m flat_map]; [reflexivity|].
+  rewrite fired_plain, IH. reflexivity.
+Qed.
+
+Lemma apply_to_all_plain st m g s t c ctx :
+  apply_to_all_m match_plain st m g s t c ctx = (apply_to_all st g s t c ctx, m).
+Proof.
+  unfold apply_to_all_m, apply_to_all, apply_to_container.
+  rewrite container_plain. cbv beta iota. rewrite container_plain. cbv beta iota.
+  destruct t as [ti|]; [rewrite container_plain|]; reflexivity.
+Qed.
+
+Lemma generation_hooks_all st g s t c o : generation_hooks st g s t c o = apply_to_all st g s t c (Some o).
+Proof. unfold generation_hooks. destruct c; reflexivity. Qed.
+
+Lemma generation_plain st g s t o cs : forall m,
+  generation_m match_plain st m g s t o cs = (map (fun c => generation_hooks st g s t c o) cs, m).
+Proof.
+  induction cs as [|c cs IH]; intros m; cbn [generation_m map]; [reflexivity|].
+  rewrite apply_to_all_plain. cbv beta iota. rewrite IH, generation_hooks_all. reflexivity.
+Qed.
+
+(* what the n-th evaluation applies, written without any memory *)
+Fixpoint eval_pure (st : state) (evs : list qevent) : list (list (list (hk * N))) :=
+  match evs with
+  | [] => []
+  | QOp o :: evs' => eval_pure (fst (step st o)) evs'
+  | QEval s t o :: evs' => map (fun c => generation_hooks st 0 s t c o) all_targets :: eval_pure st evs'
+  end.
+
+Lemma eval_trace_plain evs : forall st m, eval_trace match_plain st m evs = eval_pure st evs.
+Proof.
+  induction evs as [|[o|s t o] evs IH]; intros st m; cbn [eval_trace eval_pure]; [reflexivity| |].
+  - destruct (step st o) as [st' out]. cbn [fst]. apply IH.
+  - rewrite generation_plain. cbv beta iota. rewrite IH. reflexivity.
+Qed.
+
+Lemma eval_pure_app pre : forall st rest,
+  eval_pure st (pre ++ rest) = eval_pure st pre ++ eval_pure (fst (run_gen true st (qops_of pre))) rest.
+Proof.
+  induction pre as [|[o|s t o] pre IH]; intros st rest; cbn [app eval_pure qops_of].
+  - reflexivity.
+  - rewrite fst_run_cons. apply IH.
+  - rewrite IH. reflexivity.
+Qed.
+
+Lemma eval_pure_length evs : forall st, length (eval_pure st evs) = count_evals evs.
+Proof. induction evs as [|[o|s t o] evs IH]; intros st; cbn; auto. Qed.
+
+(* C19_filter_evaluation_pure: whatever was evaluated before (operations of any schema, any number of times), whatever is
+   in the memory and whatever comes after - the k-th evaluation applies what the registrations in force say for THAT
+   operation *)
+Lemma filter_evaluation_pure st m pre s t o post :
+  nth (count_evals pre) (eval_trace match_plain st m (pre ++ QEval s t o :: post)) []
+  = map (fun c => generation_hooks (fst (run_gen true st (qops_of pre))) 0 s t c o) all_targets.
+Proof.
+  rewrite eval_trace_plain, eval_pure_app, app_nth2; rewrite eval_pure_length; [|lia].
+  rewrite Nat.sub_diag. reflexivity.
+Qed.
+
+(* two sequences with the same registrations before the evaluation give it the same result *)
+Lemma filter_evaluation_order_independent st m1 m2 pre1 pre2 s t o post1 post2 :
+  qops_of pre1 = qops_of pre2 ->
+  nth (count_evals pre1) (eval_trace match_plain st m1 (pre1 ++ QEval s t o :: post1)) []
+  = nth (count_evals pre2) (eval_trace match_plain st m2 (pre2 ++ QEval s t o :: post2)) [].
+Proof. intros H. rewrite !filter_evaluation_pure, H. reflexivity. Qed.
+
+Lemma evaluation_sequence_own_chain scopes closures m pre s t o post c k f :
+  exists l, nth_error (nth (count_evals pre)
+                           (eval_trace match_plain (init scopes closures) m (pre ++ QEval s t o :: post)) [])
+                      (match c with TPath => 0 | TQuery => 1 | THeaders => 2 | TCookies => 3 | TBody => 4 | TCase => 5 end) = Some l
+            /\ (In (k, f) l <->
+                exists di, in_scope 0 s t di /\ In f (all_by_name (fst (run scopes closures (qops_of pre))) di (NGen k c)) /\
+                           match own_chain (spec_run closures (qops_of pre)) f with Some fs => fset_match fs o = true | None => True end).
+Proof.
+  rewrite filter_evaluation_pure.
+  exists (generation_hooks (fst (run scopes closures (qops_of pre))) 0 s t c o). split.
+  - destruct c; reflexivity.
+  - apply generation_hooks_full.
+Qed.
+
+(* ---------- auth ---------- *)
+Lemma find_supplier_plain sets ps o : forall m,
+  find_supplier_m match_plain sets m ps o = (find (fun p => provider_supplies sets p o) ps, m).
+Proof.
+  induction ps as [|p ps IH]; intros m; cbn [find_supplier_m find]; [reflexivity|].
+  destruct p as [c|c w]; cbn [provider_supplies_m provider_supplies match_plain]; [reflexivity|].
+  destruct (fset_match (hp sets w) o); [reflexivity | apply IH].
+Qed.
+
+Lemma storage_set_plain sets m ps o : storage_set_m match_plain sets m ps o = (storage_set sets ps o, m).
+Proof.
+  unfold storage_set_m, storage_set. destruct ps as [|p ps]; [reflexivity|].
+  rewrite find_supplier_plain. destruct (find _ (p :: ps)); reflexivity.
+Qed.
+
+Lemma set_on_case_plain st m t s o : set_on_case_m match_plain st m t s o = (set_on_case st t s o, m).
+Proof.
+  unfold set_on_case_m, set_on_case.
+  destruct (match t with Some t0 => lookup t0 (a_marks st) | None => None end); [apply storage_set_plain|].
+  destruct (nth s (a_storages st) []); [|apply storage_set_plain].
+  destruct (nth 0 (a_storages st) []); [reflexivity | apply storage_set_plain].
+Qed.
+
+Fixpoint auth_pure (st : astate) (evs : list aqevent) : list auth_result :=
+  match evs with
+  | [] => []
+  | AQOp o :: evs' => auth_pure (fst (astep st o)) evs'
+  | AQEval t s o :: evs' => set_on_case st t s o :: auth_pure st evs'
+  end.
+
+Lemma auth_trace_plain evs : forall st m, auth_trace match_plain st m evs = auth_pure st evs.
+Proof.
+  induction evs as [|[o|t s o] evs IH]; intros st m; cbn [auth_trace auth_pure]; [reflexivity| |].
+  - destruct (astep st o) as [st' out]. cbn [fst]. apply IH.
+  - rewrite set_on_case_plain. rewrite IH. reflexivity.
+Qed.
+
+Lemma fst_arun_cons st o ops : fst (arun_from st (o :: ops)) = fst (arun_from (fst (astep st o)) ops).
+Proof.
+  cbn [arun_from]. destruct (astep st o) as [st' out]. cbn [fst].
+  destruct (arun_from st' ops) as [st'' outs]. reflexivity.
+Qed.
+
+Lemma auth_pure_app pre : forall st rest,
+  auth_pure st (pre ++ rest) = auth_pure st pre ++ auth_pure (fst (arun_from st (aqops_of pre))) rest.
+Proof.
+  induction pre as [|[o|t s o] pre IH]; intros st rest; cbn [app auth_pure aqops_of].
+  - reflexivity.
+  - rewrite fst_arun_cons. apply IH.
+  - rewrite IH. reflexivity.
+Qed.
+
+Lemma auth_pure_length evs : forall st, length (auth_pure st evs) = count_aevals evs.
+Proof. induction evs as [|[o|t s o] evs IH]; intros st; cbn; auto. Qed.
+
+Lemma auth_evaluation_pure st m pre t s o post :
+  nth (count_aevals pre) (auth_trace match_plain st m (pre ++ AQEval t s o :: post)) AuthNone
+  = set_on_case (fst (arun_from st (aqops_of pre))) t s o.
+Proof.
+  rewrite auth_trace_plain, auth_pure_app, app_nth2; rewrite auth_pure_length; [|lia].
+  rewrite Nat.sub_diag. reflexivity.
+Qed.
+
+(* with C19_auth_first_matching: the provider that authenticates the k-th case is the first one of the storage in charge
+   whose OWN chain selects that operation *)
+Lemma auth_evaluation_first_matching n m pre o post ps :
+  no_bad_index (snd (arun n (aqops_of pre))) = true -> ps <> [] ->
+  forall t s, set_on_case (fst (arun n (aqops_of pre))) t s o = storage_set (a_sets (fst (arun n (aqops_of pre)))) ps o ->
+  nth (count_aevals pre) (auth_trace match_plain (ainit n) m (pre ++ AQEval t s o :: post)) AuthNone
+  = match find (fun p => match p with
+                         | PPlain _ => true
+                         | PSelective _ w => fset_match (chain_value (calls_on w (aqops_of pre))) o
+                         end) ps with
+    | Some p => AuthBy (provider_cls p)
+    | None => AuthNone
+    end.
+Proof.
+  intros Hok Hne t s Hin. rewrite auth_evaluation_pure. fold (arun n (aqops_of pre)). rewrite Hin.
+  apply auth_first_matching; assumption.
+Qed.
+
+(* ---------- the sentinel: verdicts remembered per (filter set object, label) ---------- *)
+Definition sADMIN : str := [97; 100; 109; 105; 110]%N.                  (* admin *)
+Definition sPUBLIC : str := [112; 117; 98; 108; 105; 99]%N.             (* public *)
+Definition sGET_USERS : str := [71; 69; 84; 32; 47; 117; 115; 101; 114; 115]%N.   (* GET /users *)
+Definition sADMINLIST : str := [97; 100; 109; 105; 110; 76; 105; 115; 116]%N.     (* adminList *)
+Definition sLIST : str := [108; 105; 115; 116]%N.                       (* list *)
+
+Definition call_tag (v : str) : fcall :=
+  {| c_func := None;
+     c_crit := [(ALabel, None, None); (AMethod, None, None); (APath, None, None); (ATag, Some (EOne v), None); (AOpId, None, None)] |}.
+Definition call_opid (v : str) : fcall :=
+  {| c_func := None;
+     c_crit := [(ALabel, None, None); (AMethod, None, None); (APath, None, None); (ATag, None, None); (AOpId, Some (EOne v), None)] |}.
+
+(* GET /users of two schemas: the same label, other tags and operationId *)
+Definition op_users_admin : oper :=
+  {| o_idx := 0; o_label := sGET_USERS; o_method := [103; 101; 116]%N; o_path := sUSERS; o_tags := Some [sADMIN]; o_opid := Some sADMINLIST |}.
+Definition op_users_public : oper :=
+  {| o_idx := 1; o_label := sGET_USERS; o_method := [103; 101; 116]%N; o_path := sUSERS; o_tags := Some [sPUBLIC]; o_opid := Some sLIST |}.
+
+(* a global hook for the operations tagged admin; dispatchers: global, schema A, schema B *)
+Definition hist_admin_hook : list op := [OFilter 0 true (call_tag sADMIN); ORegFn 0 f_map_query].
+Definition st_admin_hook : state := fst (run [Global; Schema; Schema] [0; 1; 2] hist_admin_hook).
+
+Definition query_row (r : list (list (hk * N))) : list (hk * N) := nth 1 r [].
+
+Lemma label_cache_witness :
+  o_label op_users_admin = o_label op_users_public /\ o_tags op_users_admin <> o_tags op_users_public /\
+  (* the code as it is: tagged operation only, in both orders *)
+  map query_row (eval_trace match_plain st_admin_hook [] [QEval 1 None op_users_admin; QEval 2 None op_users_public])
+    = [[(KMap, 21%N)]; []] /\
+  map query_row (eval_trace match_plain st_admin_hook [] [QEval 2 None op_users_public; QEval 1 None op_users_admin])
+    = [[]; [(KMap, 21%N)]] /\
+  (* the sentinel: applied to the untagged one after the tagged one, skipped for the tagged one after the untagged one *)
+  map query_row (eval_trace match_cached st_admin_hook [] [QEval 1 None op_users_admin; QEval 2 None op_users_public])
+    = [[(KMap, 21%N)]; [(KMap, 21%N)]] /\
+  map query_row (eval_trace match_cached st_admin_hook [] [QEval 2 None op_users_public; QEval 1 None op_users_admin])
+    = [[]; []].
+Proof. repeat split; try (vm_compute; reflexivity). vm_compute. discriminate. Qed.
+
+Lemma label_cache_refuted_neq :
+  nth 1 (eval_trace match_cached st_admin_hook [] [QEval 1 None op_users_admin; QEval 2 None op_users_public]) []
+  <> nth 0 (eval_trace match_cached st_admin_hook [] [QEval 2 None op_users_public]) [].
+Proof. vm_compute. discriminate. Qed.
+
+(* auth: a global provider for operationId adminList; storages: global, schema A, schema B *)
+Definition auth_admin_hist : list aop := [ARegister 0; AFilter 0 true (call_opid sADMINLIST); ACall 0 7%N].
+Definition ast_admin : astate := fst (arun 3 auth_admin_hist).
+
+Lemma auth_label_cache_witness :
+  auth_trace match_plain ast_admin [] [AQEval None 1 op_users_admin; AQEval None 2 op_users_public] = [AuthBy 7; AuthNone] /\
+  auth_trace match_plain ast_admin [] [AQEval None 2 op_users_public; AQEval None 1 op_users_admin] = [AuthNone; AuthBy 7] /\
+  auth_trace match_cached ast_admin [] [AQEval None 1 op_users_admin; AQEval None 2 op_users_public] = [AuthBy 7; AuthBy 7] /\
+  auth_trace match_cached ast_admin [] [AQEval None 2 op_users_public; AQEval None 1 op_users_admin] = [AuthNone; AuthNone].
+Proof. vm_compute. repeat split; reflexivity. Qed.
+
+Lemma auth_label_cache_refuted_neq :
+  nth 1 (auth_trace match_cached ast_admin [] [AQEval None 1 op_users_admin; AQEval None 2 op_users_public]) AuthNone
+  <> nth 0 (auth_trace match_cached ast_admin [] [AQEval None 2 op_users_public]) AuthNone.
+Proof. vm_compute. discriminate. Qed.
+
+(* non-vacuity of the evaluation theorems: registrations between the evaluations, a filter added later *)
+Example eval_trace_example :
+  map query_row (eval_trace match_plain (init [Global; Schema; Schema] [0; 1; 2]) []
+    [QEval 1 None op_users_admin; QOp (OFilter 0 true (call_tag sADMIN)); QOp (ORegFn 0 f_map_query);
+     QEval 2 None op_users_public; QEval 1 None op_users_admin; QEval 2 None op_users_public;
+     QOp (OUnregister 0 21%N); QEval 1 None op_users_admin])
+  = [[]; []; [(KMap, 21%N)]; []; []].
+Proof. vm_compute. reflexivity. Qed.
+
+(* ---------- the region of the sentinel: the label determines the operation among those evaluated ---------- *)
+Lemma opt_strs_eqb_eq a b : opt_strs_eqb a b = true -> a = b.
+Proof. destruct a, b; cbn; intros H; try discriminate; [f_equal; apply strs_eqb_eq; exact H | reflexivity]. Qed.
+
+Lemma opt_str_eqb_eq a b : opt_str_eqb a b = true -> a = b.
+Proof. destruct a, b; cbn; intros H; try discriminate; [f_equal; apply str_eqb_spec; exact H | reflexivity]. Qed.
+
+Lemma oper_eqb_eq a b : oper_eqb a b = true -> a = b.
+Proof.
+  destruct a as [i1 l1 m1 p1 t1 d1], b as [i2 l2 m2 p2 t2 d2]. unfold oper_eqb. cbn [o_idx o_label o_method o_path o_tags o_opid].
+  rewrite !andb_true_iff. intros [[[[[H1 H2] H3] H4] H5] H6].
+  apply N.eqb_eq in H1. apply str_eqb_spec in H2. apply str_eqb_spec in H3. apply str_eqb_spec in H4.
+  apply opt_strs_eqb_eq in H5. apply opt_str_eqb_eq in H6. subst. reflexivity.
+Qed.
+
+Lemma labels_determine_eq all a b :
+  labels_determine all = true -> In a all -> In b all -> o_label a = o_label b -> a = b.
+Proof.
+  unfold labels_determine. intros H Ha Hb Hl.
+  rewrite forallb_forall in H. specialize (H a Ha). rewrite forallb_forall in H. specialize (H b Hb).
+  rewrite Hl, str_eqb_refl in H. cbn [implb] in H. apply oper_eqb_eq. exact H.
+Qed.
+
+(* every remembered verdict is the verdict of the only operation with that label *)
+Definition Good (st : state) (all : list oper) (m : memo) : Prop :=
+  forall c l v, memo_get c l m = Some v -> forall o, In o all -> o_label o = l -> v = fset_match (hp (heap st) c) o.
+
+Lemma good_nil st all : Good st all [].
+Proof. intros c l v H. discriminate. Qed.
+
+Lemma cached_step st all m c o :
+  labels_determine all = true -> Good st all m -> In o all ->
+  exists m', match_cached m c (hp (heap st) c) o = (fset_match (hp (heap st) c) o, m') /\ Good st all m'.
+Proof.
+  intros Hall HG Ho. unfold match_cached. destruct (memo_get c (o_label o) m) as [v|] eqn:E.
+  - exists m. split; [|exact HG]. rewrite (HG c (o_label o) v E o Ho eq_refl). reflexivity.
+  - eexists. split; [reflexivity|].
+    intros c' l v. cbn [memo_get]. destruct (Nat.eqb c' c && str_eqb l (o_label o)) eqn:Ek.
+    + apply andb_true_iff in Ek. destruct Ek as [Ec El]. apply Nat.eqb_eq in Ec. apply str_eqb_spec in El. subst c' l.
+      intros Hv o' Ho' Hl. inversion Hv; subst v.
+      rewrite (labels_determine_eq all o' o Hall Ho' Ho Hl). reflexivity.
+    + apply HG.
+Qed.
+
+Lemma should_skip_cached st all m f ctx :
+  labels_determine all = true -> Good st all m -> (forall o, ctx = Some o -> In o all) ->
+  exists m', should_skip_m match_cached st m f ctx = (should_skip st f ctx, m') /\ Good st all m'.
+Proof.
+  intros Hall HG Hc. unfold should_skip_m, should_skip, filter_of.
+  destruct (lookup f (fattr st)) as [c|]; cbn [option_map]; [|exists m; split; [reflexivity | exact HG]].
+  destruct ctx as [o|]; [|exists m; split; [reflexivity | exact HG]].
+  destruct (cached_step st all m c o Hall HG (Hc o eq_refl)) as (m' & E & HG').
+  exists m'. rewrite E. split; [reflexivity | exact HG'].
+Qed.
+
+Lemma fired_cached st all ctx fs :
+  labels_determine all = true -> (forall o, ctx = Some o -> In o all) ->
+  forall m, Good st all m -> exists m', fired_m match_cached st m ctx fs = (fired st ctx fs, m') /\ Good st all m'.
+Proof.
+  intros Hall Hc. induction fs as [|f fs IH]; intros m HG; cbn [fired_m].
+  - exists m. split; [reflexivity | exact HG].
+  - destruct (should_skip_cached st all m f ctx Hall HG Hc) as (m1 & E1 & HG1). rewrite E1.
+    destruct (IH m1 HG1) as (m2 & E2 & HG2). rewrite E2. exists m2. split; [|exact HG2].
+    unfold fired. cbn [filter]. destruct (should_skip st f ctx); cbn [negb]; reflexivity.
+Qed.
+
+Lemma container_cached st all di t ctx ks :
+  labels_determine all = true -> (forall o, ctx = Some o -> In o all) ->
+  forall m, Good st all m ->
+  exists m', container_m match_cached st m di t ctx ks
+             = (flat_map (fun k => map (fun f => (k, f)) (fired st ctx (all_by_name st di (NGen k t)))) ks, m') /\ Good st all m'.
+Proof.
+  intros Hall Hc. induction ks as [|k ks IH]; intros m HG; cbn [container_m flat_map].
+  - exists m. split; [reflexivity | exact HG].
+  - destruct (fired_cached st all ctx (all_by_name st di (NGen k t)) Hall Hc m HG) as (m1 & E1 & HG1). rewrite E1.
+    destruct (IH m1 HG1) as (m2 & E2 & HG2). rewrite E2. exists m2. split; [reflexivity | exact HG2].
+Qed.
+
+Lemma apply_to_all_cached st all g s t c ctx :
+  labels_determine all = true -> (forall o, ctx = Some o -> In o all) ->
+  forall m, Good st all m ->
+  exists m', apply_to_all_m match_cached st m g s t c ctx = (apply_to_all st g s t c ctx, m') /\ Good st all m'.
+Proof.
+  intros Hall Hc m HG. unfold apply_to_all_m, apply_to_all, apply_to_container.
+  destruct (container_cached st all g c ctx kinds Hall Hc m HG) as (m1 & E1 & HG1). rewrite E1.
+  destruct (container_cached st all s c ctx kinds Hall Hc m1 HG1) as (m2 & E2 & HG2). rewrite E2.
+  destruct t as [ti|].
+  - destruct (container_cached st all ti c ctx kinds Hall Hc m2 HG2) as (m3 & E3 & HG3). rewrite E3.
+    exists m3. split; [reflexivity | exact HG3].
+  - exists m2. split; [reflexivity | exact HG2].
+Qed.
+
+Lemma generation_cached st all g s t o cs :
+  labels_determine all = true -> In o all ->
+  forall m, Good st all m ->
+  exists m', generation_m match_cached st m g s t o cs = (map (fun c => generation_hooks st g s t c o) cs, m') /\ Good st all m'.
+Proof.
+  intros Hall Ho. induction cs as [|c cs IH]; intros m HG; cbn [generation_m map].
+  - exists m. split; [reflexivity | exact HG].
+  - assert (Hc : forall o', Some o = Some o' -> In o' all) by (intros o' H; inversion H; subst; exact Ho).
+    destruct (apply_to_all_cached st all g s t c (Some o) Hall Hc m HG) as (m1 & E1 & HG1). rewrite E1.
+    destruct (IH m1 HG1) as (m2 & E2 & HG2). rewrite E2. exists m2. split; [|exact HG2].
+    rewrite generation_hooks_all. reflexivity.
+Qed.
+
+Definition qevals (qs : list (nat * option nat * oper)) : list qevent := map (fun '(s, t, o) => QEval s t o) qs.
+
+Lemma eval_cached_in_region st all qs :
+  labels_determine all = true -> (forall q, In q qs -> In (snd q) all) ->
+  forall m, Good st all m -> eval_trace match_cached st m (qevals qs) = eval_pure st (qevals qs).
+Proof.
+  intros Hall. induction qs as [|[[s t] o] qs IH]; intros Hin m HG; cbn [qevals map eval_trace eval_pure]; [reflexivity|].
+  destruct (generation_cached st all 0 s t o all_targets Hall (Hin (s, t, o) (or_introl eq_refl)) m HG) as (m1 & E1 & HG1).
+  rewrite E1. f_equal. apply IH; [|exact HG1]. intros q Hq. apply Hin. right. exact Hq.
+Qed.
+
+(* C19_label_cache_single_schema_partial: as long as no two DIFFERENT operations with one label are evaluated (every run
+   over a single schema), the sentinel and the code cannot be told apart - for every state and every evaluation sequence *)
+Lemma label_cache_single_schema st qs :
+  labels_determine (map snd qs) = true ->
+  eval_trace match_cached st [] (qevals qs) = eval_trace match_plain st [] (qevals qs).
+Proof.
+  intros Hall. rewrite eval_trace_plain.
+  apply (eval_cached_in_region st (map snd qs) qs Hall); [|apply good_nil].
+  intros q Hq. apply in_map. exact Hq.
+Qed.
+
+Example label_cache_region_example :
+  labels_determine [op_users_admin; op_get; op_users_admin] = true /\ labels_determine [op_users_admin; op_users_public] = false.
+Proof. vm_compute. split; reflexivity. Qed.
